@@ -85,6 +85,10 @@ def gen_string(t, font):
     pool = b"ABCDE A" if font.kind != "type3" else b"ABCDE"
     if font.kind == "type1" and font.first <= 32:
         pool = b"ABC  DE"
+    if font.kind == "type1" and t.coin(30, 100, "str.edge"):
+        # codes at the ends of the width table and just outside it (those take the missing width)
+        last = getattr(font, "last", 127)
+        pool = bytes(pool) + bytes({font.first, last, min(255, last + 1), max(0, font.first - 1), 255, 128})
     return bytes(t.pick(pool, "str.ch") for _ in range(n))
 
 
